@@ -83,6 +83,7 @@ class Fn:
         self.extra_params = list(extra_params)    # [(coq name, coq type)] e.g. the size of the underlying generator
         self.counter = {}
         self.fdef_ctx = None
+        self.fresh_acc = set()    # lists / tuples created in this method by `x = []` / `x = tuple()`: the only ones that may grow in place
         self.aux = []           # auxiliary top-level definitions (loop functions)
         self.scope = []         # [(coq name, coq type)] in binding order
         self.used_oracles = []
@@ -589,6 +590,10 @@ class Fn:
             return []
         e, te = self.expr(value_node, env, binds, ref)
         want = self.fields[k[5:]] if k.startswith('self.') else None
+        if te in ('EMPTY', 'EMPTYTU'):
+            self.fresh_acc.add(k)
+        else:
+            self.fresh_acc.discard(k)
         if te in ('EMPTY', 'EMPTYTU') and want is None:
             env[k] = ('[]', te)               # a local accumulator; its element type is fixed by the first append / +=
             return []
@@ -693,6 +698,7 @@ class Fn:
             return go()                                   # docstring
         if isinstance(s, ast.Expr) and ast.unparse(s.value) == f'super({self.cls}, self).__init__()':
             return go()
+        self.no_mutation(s)
         if isinstance(s, ast.Assign) and len(s.targets) == 1:
             lines = self.assign(s, s.targets[0], s.value, env, ref)
             return '\n'.join(lines + [go()])
@@ -739,6 +745,26 @@ class Fn:
         if isinstance(s, ast.For):
             return self.for_loop(s, rest, env, ref, tail)
         self.err(s, 'statement not accepted')
+
+    MUTATORS = ('append', 'extend', 'insert', 'pop', 'remove', 'clear', 'sort', 'reverse', '__setitem__', '__delitem__', '__iadd__')
+
+    def no_mutation(self, s):
+        """Rebinding `self.x = [...]` creates a new list; `self.x[i] = ..`, `self.x[:] = ..`, `self.x += ..`, `del self.x[i]`,
+        `self.x.append(..)` modify a list that may be shared (e.g. with the underlying generator that returned it).  Only
+        rebinding is in the accepted fragment; lists created in this very method ([] / tuple()) may be appended to in a loop."""
+        def is_state(n):
+            k = self.key_of(n)
+            return k is not None and k not in self.fresh_acc
+        if isinstance(s, (ast.Assign, ast.AugAssign, ast.AnnAssign, ast.Delete)):
+            targets = s.targets if isinstance(s, (ast.Assign, ast.Delete)) else [s.target]
+            for t in targets:
+                if isinstance(t, ast.Subscript) and self.key_of(t.value) is not None:
+                    self.err(s, f'in-place modification of {ast.unparse(t.value)} (item / slice assignment); only rebinding is accepted')
+                if isinstance(s, ast.AugAssign) and is_state(t):
+                    self.err(s, f'in-place modification of {ast.unparse(t)} (augmented assignment); only rebinding is accepted')
+        if isinstance(s, ast.Expr) and isinstance(s.value, ast.Call) and isinstance(s.value.func, ast.Attribute) \
+                and s.value.func.attr in self.MUTATORS and is_state(s.value.func.value):
+            self.err(s, f'in-place modification of {ast.unparse(s.value.func.value)} (.{s.value.func.attr}); only rebinding is accepted')
 
     @staticmethod
     def assigned_keys(stmts):
@@ -882,6 +908,9 @@ class Fn:
     def for_loop(self, s, rest, env, ref, tail):
         if s.orelse:
             self.err(s, 'for-else not accepted')
+        for st in ast.walk(s):
+            if isinstance(st, ast.stmt):
+                self.no_mutation(st)
         it, var = s.iter, s.target
         if isinstance(it, ast.Call) and ast.unparse(it.func) == 'enumerate' and len(it.args) == 1 and isinstance(var, ast.Tuple) and len(var.elts) == 2:
             idx = var.elts[0].id
@@ -977,6 +1006,8 @@ class Fn:
             code, lty = f'flat_map (fun {x} => {lst}) ({seq})', 'GS'
         if acc not in env or not (env[acc][1] == lty or (env[acc][1] == 'EMPTY' and lty in ('TS', 'GS', 'DS')) or (env[acc][1] == 'EMPTYTU' and lty == 'TU')):
             self.err(s, 'accumulator is not a list of this kind defined before the loop')
+        if acc not in self.fresh_acc:
+            self.err(s, f'in-place growth of {acc}, which was not created in this method by [] / tuple()')
         old = env[acc][0]
         if acc.startswith('self.') and self.fields.get(acc[5:]) != lty:
             self.err(s, 'accumulator field of another type')
